@@ -1,6 +1,8 @@
 package checks
 
 import (
+	"bytes"
+	"container/list"
 	"encoding/json"
 	"fmt"
 	"sort"
@@ -416,6 +418,43 @@ func c13CheckHand(name, route string) (kind, detail string) {
 		if len(docs) != len(h.want) {
 			return "document-count", fmt.Sprintf("%d documents decoded, %d written", len(docs), len(h.want))
 		}
+		if route == "json-one-printer" {
+			// the way the command line prints a stream: one printer, one PrintResults call per document
+			var buf bytes.Buffer
+			pr := yqlib.NewPrinter(yqlib.NewJSONEncoder(impl.JSONPrefs()), yqlib.NewSinglePrinterWriter(&buf))
+			var perr error
+			var ppan interface{}
+			func() {
+				defer func() {
+					if r := recover(); r != nil {
+						ppan = r
+					}
+				}()
+				for i, root := range docs {
+					root.SetDocument(uint(i))
+					l := list.New()
+					l.PushBack(root)
+					if perr = pr.PrintResults(l); perr != nil {
+						return
+					}
+				}
+			}()
+			if ppan != nil || perr != nil {
+				return "json-error", fmt.Sprintf("%v %v", perr, ppan)
+			}
+			dec := json.NewDecoder(strings.NewReader(buf.String()))
+			for i := range docs {
+				var got interface{}
+				if err := dec.Decode(&got); err != nil {
+					return "value", fmt.Sprintf("document %d is missing from or not valid JSON in the output:\n%s", i, buf.String())
+				}
+				g, _ := json.Marshal(got)
+				if !c13SameJSON(string(g), h.want[i]) {
+					return "value", fmt.Sprintf("document %d reads %s, means %s", i, g, h.want[i])
+				}
+			}
+			return "", ""
+		}
 		for i, root := range docs {
 			if route == "explode" {
 				res, err, pan := impl.Eval(c15Expr("explode(.)"), root)
@@ -464,7 +503,7 @@ func c13Run(c *fw.Ctx) error {
 		if !c.Mine(int64(hi)) {
 			continue
 		}
-		for _, route := range []string{"json", "explode"} {
+		for _, route := range []string{"json", "explode", "json-one-printer"} {
 			kind, detail := c13CheckHand(h.name, route)
 			c.Eval(1)
 			c.Validated(1)
@@ -478,7 +517,7 @@ func c13Run(c *fw.Ctx) error {
 		}
 	}
 	docs := c13Docs(c.Thorough())
-	c.Res.Bound = fmt.Sprintf("%d documents: every placement of <= %d explicit keys of {x y z w} before/after `<<` x {no merge, single alias a|b|c, every ordered list of 1..3 of a b c (c itself merges b)} x 3 routes x 9 read paths; 7 hand-written streams (anchor names redefined within and across documents, merged values that hold anchors and aliases used again, alias chains) x 2 routes", len(docs), map[bool]int{false: 3, true: 4}[c.Thorough()])
+	c.Res.Bound = fmt.Sprintf("%d documents: every placement of <= %d explicit keys of {x y z w} before/after `<<` x {no merge, single alias a|b|c, every ordered list of 1..3 of a b c (c itself merges b)} x 3 routes x 9 read paths; 7 hand-written streams (anchor names redefined within and across documents, merged values that hold anchors and aliases used again, alias chains) x 3 routes (each document alone as JSON, explode, the whole stream through one JSON printer)", len(docs), map[bool]int{false: 3, true: 4}[c.Thorough()])
 	for i, d := range docs {
 		if !c.Mine(int64(i)) || c.Expired() {
 			continue
